@@ -20,6 +20,11 @@ CLAIMS = {
             "PURE over the query path (no shared write => no data race) and PAR on gwb-grid's parallel_for (disjoint affine "
             "element stores, chained ranges, join post-dominates every launch)",
             "§3.1, §3.11, §4 C14"),
+    "C15": ("entropy-discipline lint + effect analysis + computer-algebra identity",
+            "RNG (banned entropy sources, every draw on the owning world's engine, engine written only from the seed argument "
+            "and the file's seed entry), PURE (the draw is the only state a query touches), same-index rule for per-composition "
+            "tables, size-normalisation shape; thorough: symbolic proof that the generated matrices satisfy R*R^T=I, det R=+1",
+            "§3.12, §3.6, §4 C15"),
     "C16": ("forwarding (argument provenance) analysis",
             "FWD over the extern \"C\" API and WorldBuilderWrapper: callee, identity argument forms in declared order, result "
             "path, handle round trip, new/delete pairing",
